@@ -24,4 +24,10 @@ def tables : Tables :=
 /-- Transport.run, loop body: the `_expected_packet` test precedes every table dispatch and `_ensure_authed` -/
 def expectedCheckBeforeDispatch : Bool := true
 
+/-- Transport.run builds its replies without Message.add() / add_adaptive_int() -/
+def runRepliesUseFixedWidth : Bool := true
+
+/-- Packetizer.read_message: no recursion, no loop — one packet per call, none skipped -/
+def readMessageDeliversEveryPacket : Bool := true
+
 end PV.Generated.C12
